@@ -139,10 +139,13 @@ impl ToTokens for FromMetaImpl<'_> {
                                         __other => ::darling::export::Err(::darling::Error::#unknown_variant_err.with_span(__nested))
                                     }
                                 } else {
-                                    ::darling::export::Err(::darling::Error::unsupported_format("literal"))
+                                    // The literal is what is wrong, not the item that holds it.
+                                    ::darling::export::Err(::darling::Error::unsupported_format("literal").with_span(&__outer[0]))
                                 }
                             }
-                            _ => ::darling::export::Err(::darling::Error::too_many_items(1)),
+                            // Point at the first item that should not be there; a caller handing over
+                            // a bare slice (a `flatten` field) has no enclosing item to blame instead.
+                            _ => ::darling::export::Err(::darling::Error::too_many_items(1).with_span(&__outer[1])),
                         }
                     }
 
